@@ -470,10 +470,35 @@ pub async fn exec_c16(script: Value) -> ExecResult {
             let is_cluster = cluster_types.contains(&t);
             if is_cluster {
                 // cluster-internal requests: refused without the cluster token
-                for (label, hdr) in [("absent", vec![]), ("wrong", vec![("cluster_token", "nope")]), ("empty", vec![("cluster_token", "")])] {
-                    let (pt, code, body) = grpc_call(&srv, t, &hdr).await;
-                    vensure!(pt == "ErrorResponse" && body.contains("cluster token is invalid"), "C16.cluster_request_without_token", "gRPC cluster request {} with cluster token {} is not refused: {} {} {}", t, label, pt, code, body.chars().take(120).collect::<String>());
+                let real = cfg.node.cluster_token.clone();
+                let variants: Vec<(&str, Option<String>)> = vec![
+                    ("absent", None),
+                    ("wrong", Some("nope".to_string())),
+                    ("empty", Some(String::new())),
+                    ("first character only", Some(real.chars().take(1).collect())),
+                    ("all but the last character", Some(real.chars().take(real.chars().count().saturating_sub(1)).collect())),
+                    ("token plus a suffix", Some(format!("{}x", real))),
+                    ("other letter case", Some(real.to_uppercase())),
+                    ("surrounded by blanks", Some(format!(" {} ", real))),
+                ];
+                for (label, val) in &variants {
+                    if val.as_deref() == Some(real.as_str()) {
+                        continue;
+                    }
+                    // under the header name the sender uses (ClusterToken) and under a look-alike
+                    for name in ["ClusterToken", "cluster_token"] {
+                        let hdr: Vec<(&str, &str)> = match val {
+                            Some(v) => vec![(name, v.as_str())],
+                            None => vec![],
+                        };
+                        let (pt, code, body) = grpc_call(&srv, t, &hdr).await;
+                        vensure!(pt == "ErrorResponse" && body.contains("cluster token is invalid"), "C16.cluster_request_without_token", "gRPC cluster request {} with cluster token '{}' (header {}) is not refused: {} {} {}", t, label, name, pt, code, body.chars().take(120).collect::<String>());
+                    }
                 }
+                // positive control: the right token is not refused for its token
+                let (pt, _code, body) = grpc_call(&srv, t, &[("ClusterToken", real.as_str())]).await;
+                vensure!(!(pt == "ErrorResponse" && body.contains("cluster token is invalid")), "C16.valid_cluster_token_refused", "gRPC cluster request {} with the configured cluster token is refused: {}", t, body.chars().take(120).collect::<String>());
+                sim::count("probe.cluster_token_variants_checked", 1);
                 continue;
             }
             if open_types.contains(&t) {
@@ -487,7 +512,7 @@ pub async fn exec_c16(script: Value) -> ExecResult {
                 sim::count("probe.grpc_type_checked", 1);
             }
             for tk in &toks {
-                let hdrs: Vec<Vec<(&str, &str)>> = if tk.label == "absent" { vec![vec![], vec![("cluster_token", cfg.node.cluster_token.as_str())]] } else { vec![vec![("accessToken", tk.value.as_str())], vec![("Authorization", tk.value.as_str())]] };
+                let hdrs: Vec<Vec<(&str, &str)>> = if tk.label == "absent" { vec![vec![], vec![("ClusterToken", cfg.node.cluster_token.as_str())]] } else { vec![vec![("accessToken", tk.value.as_str())], vec![("Authorization", tk.value.as_str())]] };
                 for h in hdrs {
                     let (pt, code, body) = grpc_call(&srv, t, &h).await;
                     vensure!(pt == "ErrorResponse" && code == 403, "C16.grpc_served_without_token", "gRPC {} with token state '{}' (headers {:?}) is not refused with 403: {} {} {}", t, tk.label, h.iter().map(|x| x.0).collect::<Vec<_>>(), pt, code, body.chars().take(120).collect::<String>());
